@@ -311,9 +311,20 @@ func (u *UnitsDefinition) handleParseMultiplier(
 				Message: fmt.Sprintf("Failed to parse number as int: %s", result),
 			}
 		}
-		floatNumber += float64(i * multiplier)
+		if multiplier > 0 && i > math.MaxInt64/multiplier {
+			return intNumber, floatNumber, isFloat, BadArgumentError{
+				Message: fmt.Sprintf("Number is too large: %s", result),
+			}
+		}
+		product := i * multiplier
+		floatNumber += float64(product)
 		if !isFloat {
-			intNumber += i * multiplier
+			if product > math.MaxInt64-intNumber {
+				return intNumber, floatNumber, isFloat, BadArgumentError{
+					Message: fmt.Sprintf("Number is too large: %s", result),
+				}
+			}
+			intNumber += product
 		}
 	}
 	return intNumber, floatNumber, isFloat, nil
